@@ -10,6 +10,12 @@ def sh(cmd, env=None):
     return r.returncode, r.stdout + r.stderr
 only = sys.argv[sys.argv.index("--only") + 1] if "--only" in sys.argv else ""
 tier = sys.argv[sys.argv.index("--tier") + 1] if "--tier" in sys.argv else "quick"
+def wt2(sid, d):
+    wt = "/tmp/sc2-" + sid
+    sh(f"git -C /repo worktree remove --force {wt}"); shutil.rmtree(wt, ignore_errors=True)
+    sh(f"git -C /repo worktree add --detach {wt} HEAD && git -C {wt} apply {d}/patch.diff")
+    return wt
+
 rows = []
 for sid in sorted(os.listdir(os.path.join(VERIF, "seeded"))):
     d = os.path.join(VERIF, "seeded", sid)
@@ -28,9 +34,16 @@ for sid in sorted(os.listdir(os.path.join(VERIF, "seeded"))):
     shutil.rmtree(env["VERIF_SCRATCH"], ignore_errors=True)
     sh(f"git -C /repo worktree remove --force {wt}"); shutil.rmtree(wt, ignore_errors=True)
     classes = [l[11:200] for l in out.splitlines() if l.startswith("violation:")]
+    if rc == 0 and meta.get("also_check"):
+        # the change breaks another claimed property than the one it was seeded for
+        rc2, out2 = sh(f"{VERIF}/check {meta['also_check']} {tier}", env=dict(env, VERIF_REPO=wt2(sid, d)))
+        meta["caught_by_check_of"] = meta["also_check"] if rc2 == 1 else None
+        if rc2 == 1:
+            rc, classes = 1, ["(by the %s check) " % meta["also_check"] + l[11:200] for l in out2.splitlines() if l.startswith("violation:")]
     meta["caught_by_check"] = rc == 1
     meta["last_check"] = {"cmd": f"VERIF_REPO=<scratch worktree with patch.diff applied> ./check {meta['property']} {tier}", "exit": rc, "wall_s": round(time.time() - t0), "violation_classes": classes[:4]}
     json.dump(meta, open(os.path.join(d, "meta.json"), "w"), indent=1)
+    sh(f"git -C /repo worktree remove --force /tmp/sc2-{sid}"); shutil.rmtree("/tmp/sc2-" + sid, ignore_errors=True)
     print(f"{'CAUGHT' if rc == 1 else 'MISSED' if rc == 0 else 'INFRA '} {sid} exit={rc} ({meta['last_check']['wall_s']}s) {classes[:2]}", flush=True)
     if rc not in (0, 1):
         print(out[-1500:])
